@@ -52,9 +52,13 @@ def _one(run, idx, configs, name, fname, mkargs, outs, in_nostd):
     for config in configs:
         if 'nostd' in config and not in_nostd:
             continue
+        if config.startswith('devchk') and not (name.startswith('chacha') or name.startswith('blake')):
+            continue
         mod = module(config, run)
         args = mkargs()
         ex = entry.default_exec(mod)
+        if config.startswith('devchk'):
+            ex.stop_after_failures = 3
         pre = None
         if name.startswith('blake'):
             tv = [a.val for a in args if isinstance(a, Sc) and a.name in ('t0', 't1')]
@@ -85,6 +89,8 @@ def _one(run, idx, configs, name, fname, mkargs, outs, in_nostd):
                     confirm(run, config, fname, args, model, '%s:%s:%s' % (name.split(':')[0], 'portable' if 'nosimd' in config else config, r.status.split(':')[0]),
                             '%s %s on %s while other backends return (%s)' % (name, r.status, desc, r.detail[:80]), kind='fault')
                 continue
+            if config.startswith('devchk'):
+                continue        # overflow-checked builds: a backend that panics where the others return is the disagreement looked for
             got = T.concat([r.mem(r.named[o]) for o in outs])
             if ref is None:
                 ref, refdesc = got, desc
@@ -119,6 +125,7 @@ def body(run, a):
     configs = ['release-std', 'release-nosimd', 'release-nostd-sse2']
     if run.tier == 'thorough':
         configs += ['release-nostd-ssse3', 'release-nostd-sse41', 'release-nostd-avx', 'release-nostd-avx2']
+    configs += ['devchk-std', 'devchk-nosimd']
     for c in configs:
         module(c, run)
     n = len(entries(run.tier))
